@@ -269,10 +269,14 @@ impl Check for C06 {
             let ctx65 = contexts(6, 5, true);
             run_space(run, "depth-2 inner sequences on 6x5", 6, 5, &outer4, &ctx65, &inner_alphabet(6, 5, true), 2, &dsts_q);
         }
+        super::mixed::explore_mixed(run, "C06", owns, if q { 5 } else { 6 }, true);
     }
 
     fn replay(&self, case: &str) -> Result<Option<Violation>, String> {
         let scene = parse_scene(case)?;
-        Ok(eval(&scene).err())
+        if let Err(v) = eval(&scene) {
+            return Ok(Some(v));
+        }
+        Ok(super::mixed::eval_mixed(&scene, &owns, true).err())
     }
 }
